@@ -148,6 +148,8 @@ def cases(tier, seed):
                 "tier": tier})
     out.append({"id": "algebra:numpy-scalar-left", "kind": "npleft",
                 "tier": tier})
+    out.append({"id": "algebra:complex-constants", "kind": "cplxconst",
+                "tier": tier})
     out.append({"id": "ndarray:elementwise", "kind": "ndelem", "tier": tier})
     out.append({"id": "ndarray:array-valued:guess-and-scalar-sample",
                 "kind": "ndarr", "part": "guess", "tier": tier})
@@ -1420,6 +1422,60 @@ def _run_unsup(case, ck, info):
     return digest(acc)
 
 
+def _run_cplxconst(case, ck, info):
+    """complex NUMBERS in expressions (added by the lead): guess and samples
+    of the derived prior equal the same operation applied to the base
+    prior's guess and samples, for sizes None, 1 and n.  The base samples
+    are reproduced by re-seeding the real generator."""
+    import operator
+    from holopy.core.prior import Uniform, Gaussian, ComplexPrior
+    acc = []
+    bases = [("Uniform(0.25,1.5)", lambda: Uniform(0.25, 1.5)),
+             ("Gaussian(2,0.5)", lambda: Gaussian(2.0, 0.5)),
+             ("ComplexPrior(U,0.5)", lambda: ComplexPrior(Uniform(1, 2),
+                                                          0.5))]
+    exprs = [("P + 1e-3j", lambda P: P + 1e-3j, lambda v: v + 1e-3j),
+             ("(2+0.5j) + P", lambda P: (2 + 0.5j) + P,
+              lambda v: (2 + 0.5j) + v),
+             ("P * (1+1j)", lambda P: P * (1 + 1j), lambda v: v * (1 + 1j)),
+             ("P - 2j", lambda P: P - 2j, lambda v: v - 2j),
+             ("np.multiply(P, 1j)", lambda P: np.multiply(P, 1j),
+              lambda v: v * 1j),
+             ("np.add(P, 3-1j)", lambda P: np.add(P, 3 - 1j),
+              lambda v: v + (3 - 1j))]
+    for bn, mk in bases:
+        for en, build, ref in exprs:
+            P = mk()
+            try:
+                D = build(P)
+            except TypeError:
+                acc.append("refused:" + bn + en)   # an explicit refusal
+                continue
+            ck.trans += 1
+            g, gr = D.guess, ref(P.guess)
+            ck.true("derived-guess:complex-constant",
+                    abs(complex(g) - complex(gr)) <= 1e-15 * abs(gr),
+                    "%s with P=%s: guess %r, expected %r" % (en, bn, g, gr))
+            for size in (None, 1, 5):
+                for seed in (0, 1):
+                    np.random.seed(seed)
+                    base = P.sample(size)
+                    np.random.seed(seed)
+                    got = D.sample(size)
+                    ck.trans += 2
+                    want = ref(np.asarray(base))
+                    ok = np.shape(got) == np.shape(want) and np.allclose(
+                        np.asarray(got, dtype=complex),
+                        np.asarray(want, dtype=complex), rtol=1e-14, atol=0)
+                    ck.true("derived-sample:complex-constant", ok,
+                            "%s with P=%s, size=%r: sample %r, the operation "
+                            "applied to the base samples gives %r" %
+                            (en, bn, size, np.asarray(got).tolist(),
+                             np.asarray(want).tolist()))
+                    acc.append(np.round(np.asarray(got, dtype=complex), 9))
+    return digest(*[a if isinstance(a, str) else a for a in acc])
+
+
 def _run_npleft(case, ck, info):
     """a NumPy scalar as the LEFT operand: numpy dispatches to
     __array_ufunc__ instead of the reflected operator."""
@@ -2229,6 +2285,7 @@ RUN = {"uniform": _run_uniform, "gaussian": _run_gaussian,
        "bgauss": _run_bgauss, "bgnone": _run_bgnone, "bgrej": _run_bgrej,
        "ctor": _run_ctor, "complex": _run_complex, "ident": _run_ident,
        "unsup": _run_unsup, "npleft": _run_npleft, "ndelem": _run_ndelem,
+       "cplxconst": _run_cplxconst,
        "ndarr": _run_ndarr, "tree1": _run_tree1, "tree2": _run_tree2,
        "tree2u": _run_tree2u, "tree3": _run_tree3}
 
